@@ -11,14 +11,16 @@ CHECKS = {
     "C01": {
         "tests": [
             {"name": "TestC01", "quick": 48000, "thorough": 1600000},
+            {"name": "TestC01Pump", "quick": 3200, "thorough": 64000},
         ],
+        "fuzz": [{"name": "FuzzStructured", "time": "180s"}],
         "rule": "cases = (declaration set, spec AST rendered to a spec string, argv) drawn by rapid from sentence sampling / token mutation / hostile token soup; "
                 "oracle = set-based reference semantics (DESIGN.md section 3) versus 'the Action ran' under ContinueOnError, both directions; "
                 "non-trivial = claimed case whose spec has >= 2 operators and on which the reference run had >= 2 live configurations at some step "
                 "or extracted an option occurrence from behind another token; distinct = by (declarations, spec string, argv)",
         "required_classes": {"verdict:accept": 0.15, "verdict:reject": 0.10, "spec:has-group": 0.05, "spec:has-dd": 0.02,
                              "decls:env-backed": 0.10, "argv:folded-token": 0.03, "spec:rep-choice-optional-nest": 0.02},
-        "assumptions": COMMON_ASSUMPTIONS + ["argv length sampled up to the pumping bound only; unclaimed classes of DESIGN.md 3.4 are counted, not asserted"],
+        "assumptions": COMMON_ASSUMPTIONS + ["TestC01Pump iterates one repetition 20-150 times (argv of 50-400 tokens) on group-free specs within the ambiguity bound", "argv length sampled up to the pumping bound only; unclaimed classes of DESIGN.md 3.4 are counted, not asserted"],
     },
     "C02": {
         "tests": [
@@ -77,6 +79,7 @@ CHECKS = {
              "env": {"VERIF_C08_L": 6, "VERIF_C08_NAMINGS": "all", "VERIF_C08_L2": 5}, "env_thorough": {"VERIF_C08_L": 7, "VERIF_C08_L2": 6}},
             {"name": "TestC08Random", "quick": 160000, "thorough": 3200000},
         ],
+        "fuzz": [{"name": "FuzzSpecString", "time": "180s"}],
         "rule": "(a) EXHAUSTIVE: every string up to length L over the 19-symbol character-class alphabet {space, TAB, [ ] ( ) | . - = < > a b X Y 1 _ 0xC3} "
                 "(quick: L=6 for the naming 'a/--aa declared, b undeclared, X declared, Y undeclared' and L=5 for two further namings; thorough: L=7 and L=6) is given to "
                 "lexer.Tokenize + parser.Parse and to an independent recogniser (regex tokenizer + LL(1) parser written from the statement): same verdict; on success the token list "
@@ -91,6 +94,7 @@ CHECKS = {
     },
     "C03": {
         "tests": [{"name": "TestC03", "quick": 40000, "thorough": 1200000, "deadline": "10s"}],
+        "fuzz": [{"name": "FuzzCompileAndParse", "time": "240s"}],
         "rule": "cases = (spec string, declarations, argv, environment subsets); spec sources: grammar-derived with nesting turned up (depth 5: repetitions of optionals of repetitions, -- and option "
                 "groups inside repetitions), the same with byte/fragment edits, edited strings of the repository corpus, alphabet-biased and raw byte strings; argv from the C01 sources, "
                 "hostile token soup, and pumped to 20-200 tokens; EVERY subset of the options env-backed when <= 4 options (else 8 random subsets) - evaluations count (case, subset) runs; "
@@ -156,6 +160,7 @@ CHECKS = {
     },
     "C13": {
         "tests": [{"name": "TestC13", "quick": 160000, "thorough": 3200000}],
+        "fuzz": [{"name": "FuzzNumericToken", "time": "120s"}],
         "rule": "cases = one container of one of the seven built-in types x {option via --opt=T, -o=T, -oT, separate forms (non-dash T); argument} x {command line, environment (single: raw, multi: comma list)}; "
                 "tokens T from a pool of ~70 numeric/boolean edge literals, a numeric-shape regex generator and short arbitrary strings; oracle: differential against strconv.ParseInt(s,10,64) / ParseFloat(s,64) / ParseBool "
                 "(multi-valued env items after TrimSpace): accepted iff strconv accepts, bound value equal (floats by bit pattern), an unparsable command-line token => usage error and Action not run, strings byte-identical; "
